@@ -968,7 +968,12 @@ class Executor:
         if fn is None:
             # function items / fn pointers: `const path::to::fn`
             if isinstance(inner, VOpaque) and inner.name.startswith("const:"):
-                target = self.resolve(inner.name[6:])
+                path = inner.name[6:]
+                last = re.sub(r"::<[^>]*>", "", path).split("::")[-1]
+                enum = re.sub(r"::<.*", "", path).split("::")[-1] if "::<" in path else (path.split("::")[-2] if "::" in path else "")
+                if enum in self.enums and last in self.enums[enum]:
+                    return [(st, VAgg(path, last, list(args)))]  # tuple-variant constructor used as a function
+                target = self.resolve(path)
                 if target is not None:
                     self.stats.inlined.add(target.name)
                     amap = {idx: v for (idx, ty), v in zip(target.args, args)}
@@ -991,6 +996,23 @@ class Executor:
 
     def resolve(self, callee):
         c = callee.strip()
+        # drop trailing generic arguments:  Type::<D>::method::<Args>  ->  Type::<D>::method
+        while c.endswith(">"):
+            depth = 0
+            cut = None
+            for i in range(len(c) - 1, -1, -1):
+                ch = c[i]
+                if ch == ">" and not (i > 0 and c[i - 1] in "-="):
+                    depth += 1
+                elif ch == "<":
+                    depth -= 1
+                    if depth == 0:
+                        cut = i
+                        break
+            if cut is not None and cut >= 2 and c[cut - 2:cut] == "::":
+                c = c[:cut - 2]
+            else:
+                break
         m = re.match(r"<(\w+)(?:<.*>)? as [\w:<>, ']+>::(\w+)$", c)
         if m:
             ty, meth = m.group(1), m.group(2)
